@@ -452,6 +452,33 @@ def _elems(root):
     return [e for e in root.iter() if isinstance(e.tag, str)]
 
 
+def rebase_notification(env, xml: bytes) -> bytes:
+    """A recorded notification carries an MdibVersion / StateVersions that the consumer has already seen: it is answered 200 and ignored as outdated.
+    Rebased = MdibVersion set to the consumer's current version + 1 and every StateVersion to a value above anything stored, so that the consumer's
+    handlers really process the (mutated) content."""
+    try:
+        root = etree.fromstring(xml, etree.XMLParser(resolve_entities=False))
+    except etree.XMLSyntaxError:
+        return xml
+    body = root.find(f'{{{S12}}}Body')
+    if body is None or len(body) == 0 or not isinstance(body[0].tag, str) or not etree.QName(body[0]).localname.endswith('Report'):
+        return xml
+    msg = body[0]
+    env.rebase_counter = getattr(env, 'rebase_counter', 0) + 1
+    # (an accepted hostile notification may have driven the consumer's version to the maximum of xsd:unsignedLong: the same version is still accepted)
+    msg.set('MdibVersion', str(min(env.cmdib.mdib_version + 1, 2 ** 64 - 1)))
+    for e in msg.iter():
+        if isinstance(e.tag, str) and 'DescriptorHandle' in e.attrib:
+            e.set('StateVersion', str(1_000_000 + env.rebase_counter))
+    return _ser(root)
+
+
+def _rebased(rng, env, seed, p=0.6):
+    if seed['role'] == 'consumer' and seed['method'] == 'POST' and seed['xml'] and rng.random() < p:
+        return {**seed, 'xml': rebase_notification(env, seed['xml']), 'rebased': True}
+    return seed
+
+
 def _post_seed(rng, env, seed):
     if seed['method'] == 'POST' and seed['xml']:
         return seed
@@ -459,7 +486,7 @@ def _post_seed(rng, env, seed):
 
 
 def m_structure(rng, env, seed):
-    seed = _post_seed(rng, env, seed)
+    seed = _rebased(rng, env, _post_seed(rng, env, seed))
     root = _tree(seed)
     els = _elems(root)
     kind = rng.choice(['delete_elem', 'dup_elem', 'rename_elem', 'swap_ns', 'delete_attr', 'rename_attr', 'attr_value', 'text_value',
@@ -545,7 +572,53 @@ def m_structure(rng, env, seed):
                 if a in e.attrib and rng.random() < 0.5:
                     e.set(a, rng.choice(['', 'unknown.handle', 'mds0', 'PC.mds0', 'A' * 3000]))
     doc = _ser(root)
-    return render(seed, xml=doc), {'mut': f's.{kind}', 'doc': doc}
+    return render(seed, xml=doc), {'mut': f's.{kind}', 'doc': doc, 'rebased': seed.get('rebased', False)}
+
+
+NUMBERS = ['-1', '0', '-0', '+7', '18446744073709551615', '18446744073709551616', '9223372036854775808', '4294967296', '9' * 400, '9' * 5000, '1e400', '1E-400',
+           '0.' + '0' * 400 + '1', '-' + '9' * 30 + '.5', '007', '1.', '.5', 'NaN', 'INF', '-INF', '\u0663', '0x1F', '1_000', ' 5 ', '']
+_NUM = re.compile(r'^[+-]?\d+(\.\d+)?$')
+
+
+def numeric_fields(env):
+    """every numeric attribute / leaf text of the seed corpus, once per (endpoint, request type, element, attribute)"""
+    fields = {}
+    for s in env.seeds:
+        if s['method'] != 'POST' or not s['xml']:
+            continue
+        for e in _elems(_tree(s)):
+            ln = etree.QName(e).localname
+            for a, v in e.attrib.items():
+                if _NUM.match(v):
+                    fields.setdefault((s['role'], s['name'], ln, a), s)
+            if e.text and len(e) == 0 and _NUM.match(e.text.strip()):
+                fields.setdefault((s['role'], s['name'], ln, None), s)
+    return fields
+
+
+def m_number(rng, env, seed, field=None, value=None):
+    """One numeric field of a valid request replaced by a boundary / huge / negative / malformed number."""
+    if field is None:
+        fields = getattr(env, '_numeric_fields', None)
+        if fields is None:
+            fields = env._numeric_fields = numeric_fields(env)
+        field = rng.choice(sorted(fields, key=str))
+        seed = fields[field]
+    value = rng.choice(NUMBERS) if value is None else value
+    _, _, ln, attr = field
+    seed = _rebased(rng, env, seed, p=1.0)
+    root = _tree(seed)
+    for e in _elems(root):
+        if etree.QName(e).localname != ln:
+            continue
+        if attr is None and e.text and len(e) == 0 and _NUM.match(e.text.strip()):
+            e.text = value
+            break
+        if attr is not None and attr in e.attrib:
+            e.set(attr, value)
+            break
+    doc = _ser(root)
+    return render(seed, xml=doc), {'mut': f's.number.{ln}.{attr or "text"}', 'doc': doc, 'rebased': seed.get('rebased', False)}
 
 
 def m_expires(rng, env, seed, value=None, how=None):
@@ -834,6 +907,11 @@ FRAMING_KINDS = ['no_cl', 'cl_negative', 'cl_minus1', 'cl_nonnumeric', 'cl_small
                  'no_ct', 'weird_ct', 'bare_lf', 'header_fold', 'accept_q0', 'accept_garbage', 'lowercase_method', 'trunc_request_line']
 
 
+# framings of an unchanged valid request that HTTP/1.1 (RFC 7230) and the codings announced by the endpoint itself (Accept-Encoding of its own
+# clients = its supported_encodings) make equivalent to the recorded one: the request must still be accepted
+EQUIVALENT_FRAMINGS = {'f.chunked_ok', 'f.ce_gzip_ok', 'f.ce_lz4_ok', 'f.http10', 'f.expect100', 'f.conn_close', 'f.chunk_ext_short'}
+
+
 def m_framing(rng, env, seed, kind=None, arg=None):
     kind = kind or rng.choice(FRAMING_KINDS)
     xml = seed['xml'] if seed['method'] == 'POST' else rng.choice([s for s in env.seeds if s['method'] == 'POST'])['xml']
@@ -870,6 +948,7 @@ def m_framing(rng, env, seed, kind=None, arg=None):
         raw = req([('Content-Length', str(rng.choice([0, n, n + 7]))), ('Transfer-Encoding', 'chunked')], L.ref_chunk(xml, [max(1, n // 2)]))
     elif kind == 'chunked_ok':
         raw = req([('Transfer-Encoding', 'chunked')], L.ref_chunk(xml, [rng.randrange(1, n + 2)], upper=rng.random() < 0.3))
+        info['valid'] = True
     elif kind == 'chunk_trunc_data':
         ch = L.ref_chunk(xml, [max(1, n // 2)])
         raw = req([('Transfer-Encoding', 'chunked')], ch[:rng.randrange(8, max(9, len(ch) - 8))])
@@ -890,6 +969,7 @@ def m_framing(rng, env, seed, kind=None, arg=None):
         raw = req([('Transfer-Encoding', 'chunked')], rng.choice([b'ffffffffffffff', b'7fffffffffffffff', b'10000000000000']) + b'\r\n' + xml + b'\r\n0\r\n\r\n')
     elif kind == 'chunk_ext_short':
         raw = req([('Transfer-Encoding', 'chunked')], L.ref_chunk(xml, [n], ext=b';a=b'))
+        info['valid'] = True
     elif kind == 'chunk_ext_long':
         raw = req([('Transfer-Encoding', 'chunked')], L.ref_chunk(xml, [n], ext=b';name=' + b'v' * rng.choice([12, 40, 5000])))
     elif kind == 'chunk_bad_hex':
@@ -990,7 +1070,7 @@ def m_framing(rng, env, seed, kind=None, arg=None):
         coding = 'gzip' if kind == 'ce_gzip_ok' else rng.choice(['x-lz4', 'lz4'])
         z = L.ref_encode(coding, xml)
         raw = req([('Content-Encoding', coding), ('Content-Length', str(len(z)))], z)
-        info['valid'] = True
+        info['valid'] = coding in (env.servers[post_seed['role']].supported_encodings or [])
     elif kind == 'ce_nobody':
         raw = req([('Content-Encoding', rng.choice(['gzip', 'x-lz4']))] + rng.choice([[], [('Content-Length', '0')]]), b'')
     elif kind == 'expect100':
@@ -1015,6 +1095,7 @@ def m_framing(rng, env, seed, kind=None, arg=None):
         others = [s for s in env.seeds if s['role'] == post_seed['role']]
         raw = b''.join(render(rng.choice(others)) for _ in range(rng.randrange(2, 5)))
         info['pipelined'] = True
+        info['then_valid'] = True
         info['doc'] = None
     elif kind == 'trunc_headers':
         full = req([('Content-Length', str(n))], xml)
@@ -1046,6 +1127,8 @@ def m_framing(rng, env, seed, kind=None, arg=None):
                    ('Content-Length', str(n))], xml)
     else:
         raise ValueError(kind)
+    if seed['method'] != 'POST':
+        info.pop('valid', None)    # (body and path come from different recorded requests)
     return raw, info
 
 
@@ -1118,15 +1201,19 @@ def m_sequence(rng, env, seed, kind=None):
         first = L.mk_request('POST', path, hd + [('Connection', 'close'), ('Content-Length', str(n))], xml) + valid
     else:
         first = L.mk_request('POST', path, hd + [('Expect', rng.choice(['100-continue', '200-ok', ''])), ('Content-Length', str(n))], xml)
-    return first + valid, {'mut': f'q.{kind}', 'doc': None, 'pipelined': True}
+    # kinds after which the position in the stream is well defined: when the handler goes on with the connection, the unchanged valid request that
+    # follows must get its normal answer (closing the connection instead is just as good)
+    then_valid = kind in ('unknown_path_then_valid', 'fault_then_valid', 'http10_keepalive', 'expect_then_valid')
+    return first + valid, {'mut': f'q.{kind}', 'doc': None, 'pipelined': True, 'then_valid': then_valid}
 
 
-def m_valid(rng, env, seed):
+def m_valid(rng, env, seed, rebase=None):
     fr = rng.choice(['cl', 'cl', 'chunked'])
-    return render(seed, framing=fr), {'mut': 'valid', 'doc': seed['xml'], 'valid': True}
+    seed = _rebased(rng, env, seed, p=0.5 if rebase is None else float(rebase))
+    return render(seed, framing=fr), {'mut': 'valid', 'doc': seed['xml'], 'valid': True, 'rebased': seed.get('rebased', False)}
 
 
-MUTATORS = [(m_valid, 8), (m_structure, 36), (m_expires, 3), (m_path, 13), (m_doctype, 8), (m_encoding, 8), (m_framing, 30), (m_sequence, 4), (m_raw, 11)]
+MUTATORS = [(m_valid, 8), (m_structure, 33), (m_number, 3), (m_expires, 3), (m_path, 13), (m_doctype, 8), (m_encoding, 8), (m_framing, 30), (m_sequence, 4), (m_raw, 11)]
 
 
 # ---------------------------------------------------------------------------------------------------------------
@@ -1189,6 +1276,12 @@ class Plain:
     pass
 
 
+REACH = [('f.chunk_size_digits', 'chunk_size_ladder'), ('f.chunk_header_len', 'chunk_header_len'), ('p.pct_', 'percent_encoded_target'), ('s.expires_', 'hostile_expires'),
+         ('s.number.', 'hostile_number'), ('q.', 'request_sequence'), ('c.closed_', 'closed_server'), ('d.xinclude', 'external_ref_without_doctype'),
+         ('d.schema_location', 'external_ref_without_doctype'), ('d.stylesheet_pi', 'external_ref_without_doctype'), ('f.host_', 'hostile_header'),
+         ('f.hdr_', 'hostile_header'), ('f.no_host', 'hostile_header'), ('f.dup_', 'hostile_header')]
+
+
 _STATUS_LINE = re.compile(rb'^HTTP/1\.[01] [1-5][0-9][0-9]( [^\r\n]*)?$')
 _FIELD = re.compile(rb"^[!#$%&'*+.^_`|~0-9A-Za-z-]+:[^\r\n]*$")
 
@@ -1223,6 +1316,11 @@ def run_case(env: Env, ctx, role, raw, info, seed_name):
     res = L.feed(srv, raw, handler_cls=env.handler_cls)
     ctx.count('requests.' + role)
     ctx.count('mut.' + mut.split('.')[0])
+    if info.get('rebased'):
+        ctx.count('reach.rebased_notification')
+    for prefix, name in REACH:
+        if mut.startswith(prefix):
+            ctx.count('reach.' + name)
     detail = {'mutation': mut, 'seed': seed_name, 'role': role, 'env': f'{env.mode}/{"deferred" if env.deferred else "sync-dispatch"}',
               'request_head': raw[:700], 'request_len': len(raw)}
     outcome = []
@@ -1377,12 +1475,21 @@ def run_case(env: Env, ctx, role, raw, info, seed_name):
         if plain_bodies[0].status != posts[0]['ret'][0] or plain_bodies[0].body_plain != body:
             ctx.witness('response.differs_from_soap_layer', 'status/body on the wire differ from what the SOAP layer returned', detail)
     # ---- (5) valid requests must be accepted
-    if info.get('valid') and mut == 'valid':
+    if info.get('valid') and (mut == 'valid' or mut in EQUIVALENT_FRAMINGS):
         if not statuses or statuses[0] >= 300:
-            ctx.witness('valid.request_refused', f'an unmodified request recorded from the library\'s own client was answered with {statuses[:1]}',
-                        {**detail, 'response': plain_bodies[0].body_plain[:500] if plain_bodies else None})
+            if mut == 'valid':
+                ctx.witness('valid.request_refused', f'an unmodified request recorded from the library\'s own client was answered with {statuses[:1]}',
+                            {**detail, 'response': plain_bodies[0].body_plain[:500] if plain_bodies else None})
+            else:
+                ctx.witness('valid.equivalent_framing_refused', f'an unmodified valid request in an equivalent HTTP framing ({mut}) was answered with {statuses[:1]}',
+                            {**detail, 'response': plain_bodies[0].body_plain[:500] if plain_bodies else None})
         else:
-            ctx.count('valid.accepted')
+            ctx.count('valid.accepted' if mut == 'valid' else 'valid.equivalent_framing_accepted')
+    if info.get('then_valid') and len(statuses) >= 2 and len(statuses) == len(entered):
+        ctx.count('sequence.follow_up_checked')
+        if statuses[-1] >= 300:
+            ctx.witness('sequence.valid_request_refused', f'an unchanged valid request that follows another request on the same connection ({mut}) was answered '
+                        f'with {statuses}', {**detail, 'response': plain_bodies[-1].body_plain[:500]})
     # ---- (6) schema-invalid request accepted
     doc = info.get('doc')
     accepted = [p for p in plain_bodies if p.status < 300 and not contains_fault(p.body_plain)]
@@ -1458,6 +1565,8 @@ def run_case(env: Env, ctx, role, raw, info, seed_name):
                         'MDIB / subscription table differ after a request that was rejected', {**detail, 'diff': d[:8], 'statuses': statuses})
     else:
         ctx.count('monitor.accepted_requests')
+        if info.get('rebased') and before['consumer_mdib'] != after['consumer_mdib']:
+            ctx.count('consumer.mdib_changed_by_accepted_notification')
     st = tuple(statuses[:2]) if statuses else ('none',)
     return (role, mut, seed_name, st, tuple(sorted(set(outcome))), bool(mw))
 
@@ -1501,7 +1610,9 @@ def _directed(env, rng):
             for k in ('depth_less', 'depth_more', 'depth_more_hostile', 'depth_more_hostile'):
                 out.append((s, lambda r, e, sd, k=k: m_path(r, e, sd, k)))
     for s in env.seeds:
-        out.append((s, m_valid))
+        out.append((s, lambda r, e, sd: m_valid(r, e, sd, rebase=False)))
+        if s['role'] == 'consumer':
+            out.append((s, lambda r, e, sd: m_valid(r, e, sd, rebase=True)))
     out += _directed_deep(env)
     return out
 
@@ -1579,6 +1690,13 @@ def _directed_deep(env):
                 out.append((s, lambda r, e, sd, v=v: m_expires(r, e, sd, v, 'text')))
             for how in ('dup', 'child', 'drop'):
                 out.append((s, lambda r, e, sd, how=how: m_expires(r, e, sd, 'PT60S', how)))
+    # last (a consumer that accepted a notification with a huge but valid MdibVersion ignores older ones from then on)
+    half = getattr(env, 'number_share', None)    # quick tier: every (field, value) in two of the four configurations (one of them deferred)
+    for field, s in sorted(numeric_fields(env).items(), key=lambda kv: str(kv[0])):
+        for j, v in enumerate(NUMBERS):
+            if half is not None and j % 2 != half:
+                continue
+            out.append((s, lambda r, e, sd, f=field, v=v: m_number(r, e, sd, f, v)))
     return out
 
 
@@ -1633,6 +1751,8 @@ def w_fuzz(ctx: core.Ctx, arg):
     rng = ctx.rng('fuzz', arg['i'])
     env = Env(ctx, mode=arg.get('mode', 'sync'), deferred=arg.get('deferred', False), chunk_size=arg.get('chunk', 0))
     d = setup_canaries(env, arg.get('canary_root'))
+    if ctx.quick:
+        env.number_share = arg['i'] % 2
     try:
         env.build_seeds()
         names = sorted({(s['role'], s['name']) for s in env.seeds})
@@ -1698,9 +1818,9 @@ def w_xxe(ctx: core.Ctx, arg):
         ctx.count('xxe.strace_controls_seen', 2)
         for ln in lines:
             if any(x in ln for x in (b'canary.txt', b'canary.dtd', b'canary_param.dtd')):
-                ctx.witness('xxe.canary_file_opened', 'the process opened a canary file referenced only from a DOCTYPE of a request', {'strace': ln[:300]})
+                ctx.witness('xxe.canary_file_opened', 'the process opened a canary file referenced only from a request (DOCTYPE / entity / XInclude / schemaLocation / processing instruction)', {'strace': ln[:300]})
             if b'connect(' in ln and b'htons(%d)' % CANARY_PORT in ln:
-                ctx.witness('xxe.canary_url_connected', 'the process connected to the canary URL referenced only from a DOCTYPE of a request', {'strace': ln[:300]})
+                ctx.witness('xxe.canary_url_connected', 'the process connected to the canary URL referenced only from a request (DOCTYPE / entity / XInclude / schemaLocation / processing instruction)', {'strace': ln[:300]})
             elif b'connect(' in ln and b'AF_INET' in ln and b'htons(%d)' % CONTROL_PORT not in ln:
                 ctx.count('xxe.other_inet_connects')
                 if b'127.0.0.1' not in ln:
@@ -1712,7 +1832,9 @@ def w_xxe(ctx: core.Ctx, arg):
 def run(ctx: core.Ctx):
     ctx.rule = ('one case = one TCP connection (raw bytes) fed to the real DispatchingRequestHandler of a live provider or consumer; generated from the '
                 'valid requests the library\'s own clients produced (seed types in coverage.seed_types) by: unchanged | structure-aware XML mutation | path | '
-                'DOCTYPE/entity | character encoding | HTTP framing / coding / header | raw bytes.  distinct = hash of (endpoint, mutation kind, seed type, '
+                '(incl. percent-encoded) | DOCTYPE/entity/XInclude/schemaLocation | character encoding | HTTP framing / coding / header | hostile number / Expires sweep | '
+                'several requests on one connection | closed server | raw bytes; notifications to the consumer are rebased (fresh MdibVersion / StateVersion) so that '
+                'its handlers process them.  distinct = hash of (endpoint, mutation kind, seed type, '
                 'HTTP status(es), anomaly, SOAP layer reached); non-trivial = every connection (the empty one included)')
     q = ctx.quick
     jobs = []
@@ -1727,6 +1849,11 @@ def run(ctx: core.Ctx):
     for name, n in (('requests.provider', 1500), ('requests.consumer', 500), ('monitor.do_calls', 1500), ('monitor.soap_layer_reached', 800),
                     ('soap.faults_checked', 300), ('soap.success_bodies_checked', 100), ('monitor.rejected_snapshots_compared', 1000),
                     ('monitor.accepted_requests', 100), ('valid.accepted', 50), ('xxe.doctype_requests', 150), ('xxe.parsed_trees_checked', 50),
+                    ('monitor.response_heads_checked', 1500), ('monitor.thread_deaths_checked', 1500), ('monitor.closed_server_requests', 8),
+                    ('get.success_bodies_checked', 8), ('get.wire_compared', 20), ('valid.equivalent_framing_accepted', 20), ('sequence.follow_up_checked', 30),
+                    ('reach.chunk_size_ladder', 4 * 2 * len(CHUNK_DIGITS)), ('reach.chunk_header_len', 40), ('reach.percent_encoded_target', 300),
+                    ('reach.hostile_expires', 100), ('reach.hostile_number', 500), ('reach.rebased_notification', 300), ('consumer.mdib_changed_by_accepted_notification', 30), ('reach.request_sequence', 80), ('reach.closed_server', 16),
+                    ('reach.external_ref_without_doctype', 30), ('reach.hostile_header', 50),
                     ('xxe.strace_controls_seen', 2), ('mut.s', 300), ('mut.f', 300), ('mut.r', 100), ('mut.e', 50), ('mut.p', 50), ('mut.d', 100)):
         ctx.floor(name, n)
     ctx.assumptions += [
